@@ -26,6 +26,23 @@ struct L09 : Listener {
     void after(Interp &in, const Op &op, size_t i, const Outcome &o) override {
         if (o.skipped) return;
         const std::string &k = op.code;
+        if (k == "pflip" && !o.threw) {
+            // expected: the parameter holds exactly the second set of values (zeros negated), everything else untouched
+            std::string grp = in.groupOf(op.arg(0)), name = in.namesUpper ? upper(paramNameOf(op.arg(1))) : paramNameOf(op.arg(1));
+            Rng r(static_cast<uint64_t>(op.arg(2)));
+            size_t n = 1 + r.below(6);
+            SParam ep; ep.name = name; ep.type = 4; ep.dims = {n};
+            for (size_t i2 = 0; i2 < n; ++i2) { uint32_t b = genFloatBits(r); float f = bitsToFloat(b); if (f != f) f = 1.5f; float v = i2 % 2 == 0 ? -0.0f : f; if (v == 0.0f && i2 % 2 != 0) v = -v; ep.floats.push_back(floatToBits(v)); }
+            std::vector<SGroup> post = takeSnap(in.o()).groups, want = pre;
+            SGroup *g = nullptr; for (auto &G : want) if (G.name == grp) { g = &G; break; }
+            if (!g) { SGroup ng; ng.name = grp; want.push_back(ng); g = &want.back(); }
+            bool rep = false; for (auto &P : g->params) if (P.name == name) { P = ep; rep = true; break; }
+            if (!rep) g->params.push_back(ep);
+            ++replaced;
+            std::string d = firstDiff(groupsText(want), groupsText(post));
+            if (!d.empty()) fail(i, op, "a parameter re-set on a copy with the sign of its zeros flipped does not hold the new values: " + d);
+            return;
+        }
         if (k != "param" && k != "lockg" && k != "unlockg") return;
         std::vector<SGroup> post = takeSnap(in.o()).groups;
         if (k == "lockg" || k == "unlockg") {
@@ -42,7 +59,7 @@ struct L09 : Listener {
         }
         ParamSpec sp = in.specOf(op);
         // (a) Parameter::set acceptance rule
-        const bool setRefusedNow = o.threw && o.note == "set-refused";
+        const bool setRefusedNow = o.threw && (o.note == "set-refused" || o.note == "set-refused-on-copy");
         if (!sp.untyped) {
             bool expectAccept = sp.consistent;
             if (setRefusedNow && expectAccept) { fail(i, op, "Parameter::set refused values whose count equals the product of the dimensions (" + o.cls + ")"); return; }
